@@ -273,6 +273,10 @@ func writeTlbPackage(dir, pkg, schema string) error {
 
 func buildTlbProgram(schemas []string) (map[string]error, error) {
 	genErr := map[string]error{}
+	// whatever a previous run (of another state of the repository) left for these schemas is stale
+	for _, sc := range schemas {
+		os.RemoveAll(filepath.Join(cacheDir(), tlbSid(sc)))
+	}
 	dir, err := scratchDir("c09-tlbmod")
 	if err != nil {
 		return genErr, err
@@ -354,12 +358,35 @@ func ensureTlbProgram(schema string) (string, error) {
 	return p, nil
 }
 
+const tlbCoverageSchema = `leaf$_ a:uint1 b:uint63 c:uint64 d:int1 e:int63 f:int64 g:uint8 h:uint16 i:uint32 j:int8 k:int32 = Leaf;
+tagged#0f8a7ea5 v:(## 1) w:(## 64) x:# y:Bool z:Coins = Tagged;
+bin$1011 m:bits80 n:bits256 o:(VarUInteger 16) p:(VarUInteger 32) q:MsgAddress = Bin;
+dicts$_ d8:(HashmapE 8 uint7) d32:(HashmapE 32 Leaf) d63:(HashmapE 63 ^Leaf) d64:(HashmapE 64 Tagged) d256:(HashmapE 256 ^Bin) = Dicts;
+refs#ab r1:^Cell r2:^Leaf r3:^bits128 m1:(Maybe uint5) = Refs;
+opt$_ m2:(Maybe ^Cell) m3:(Maybe ^Tagged) m4:(Maybe Leaf) e1:(Either Leaf ^Leaf) = Opt;
+eith$_ e2:(Either uint3 Bool) e3:(Either ^Bin ^Cell) e4:(Either Bool ^Tagged) = Eith;
+u_a$0 x:Leaf = U;
+u_b$10 y:^Dicts = U;
+u_c$110 = U;
+u_d$111 z:Opt w:^Eith = U;
+h_a#00000001 q:uint64 = H;
+h_b#00000002 r:Refs tail:Cell = H;
+`
+
 func genTlb(g *h.G) {
 	g.Emit("go.regen.abi")
 	genAbi(g)
 	n := g.Scale(6, 100)
 	var schemas []*tlbmini.Schema
 	var texts []string
+	// a fixed schema first: every construct of the subset at its boundary parameters, on every run (dictionary key
+	// widths 8/32/63/64/256, integer widths 1/63/64 and Go's own 8/16/32/64, every tag form, every reference form)
+	if fixed, err := tlbmini.Parse(tlbCoverageSchema); err == nil {
+		schemas = append(schemas, fixed)
+		texts = append(texts, tlbCoverageSchema)
+	} else {
+		h.Fatalf("coverage schema: %v", err)
+	}
 	for i := 0; i < n; i++ {
 		s := tlbmini.GenSchema(rand.New(rand.NewSource(g.Rng.Int63())), 12, g.Count)
 		schemas = append(schemas, s)
